@@ -4,3 +4,4 @@ pub mod arith;
 pub mod fnm;
 pub mod optparse;
 pub mod expand;
+pub mod ctl;
